@@ -5,6 +5,8 @@
   commit <batch>                       run fault-free, keep the result                    → "K:ok <digest>" | "E:<reason> <digest>"
   try <fault> <batch>                  run with a fault on the current state, do not keep → same
       fault = none | ps:<k> (fail / die at the k-th point-store call) | idx (an index stage fails)
+            | commit (the closure returns nil, then the commit of the write transaction fails:
+              fault position = number of storage calls of the model's program)
             | crashpre (die right before commit) | crashpost (die right after commit)
   batch = ins <uuidhex>:<node id the implementation allocated, 0 = unknown>:<dochex> ...
         | upd <uuidhex>:<size of merged document>:<merged dochex> ...
@@ -132,6 +134,8 @@ def step (st : DState) (line : String) : DState × String :=
     | some b =>
       if f == "none" then (st, outcome (runSpec st b [] none))
       else if f == "idx" then (st, outcome (runSpec st b [.index false] none))
+      else if f == "commit" then
+        (st, outcome (runSpec st b [] (some (opsOf (progOf st b [])).length)))
       else if f == "crashpre" then
         if isDup b then (st, outcome (runSpec st b [] none))
         else (st, s!"E:fault {psDigest (crashBatch st.shard (progOf st b []) .beforeCommit)}")
